@@ -425,7 +425,7 @@ def apply_op(roots, t, op):
     elif kind == 'remove':
         arr.remove(_pyval(op['x'], ft))
     elif kind == 'add':
-        arr.add()
+        arr.add(**dict((ft[2][j][0], _pyval(x, ft[2][j][2])) for j, x in op.get('kw', [])))
     else:
         raise ValueError(kind)
 
